@@ -27,7 +27,7 @@ func init() {
 	register(&Def{
 		ID:          "C04",
 		Technique:   "typestate of the pending table (lookup-remove-write in one critical section), single-writer slot rules, atomic read-modify-write of the id counter, id/key provenance, routing dominance",
-		Explanation: "Decides: (D1) the id counter is read into FormatInt and incremented by exactly 1 in one critical section, with no other writer and no arithmetic between counter and id; (D2) every write into a response slot happens under the client lock, after a hit lookup of the id in the pending table and its removal, to the looked-up entry, once, with no release in between (3 sites); slots have constant capacity ≥ 1; (D3) requests are registered under the lock with key = Response.id, only on the success edge of Send, each with a context watcher whose cancel function is stored in the Response; (D4) the message written into a slot carries the id under which the Response was registered (the id-mismatch panic is unreachable), and request-shaped inbound members are routed away before the table is consulted; unknown ids return without a write. (D6) the loop that delivers the members of an inbound message has no early exit. (D7) the key used to match a reply is the whole (null-normalised) id text, never a substring or respelling. (D8) no list of messages, tasks or responses is sorted or reversed. (D9) the bytes a Recv returned are decoded inside the receiving call: they reach no goroutine, stored closure, field or channel (a framing may reuse its buffer on the next Recv).",
+		Explanation: "Decides: (D1) the id counter is read into FormatInt and incremented by exactly 1 in one critical section, with no other writer and no arithmetic between counter and id; (D2) every write into a response slot happens under the client lock, after a hit lookup of the id in the pending table and its removal, to the looked-up entry, once, with no release in between (3 sites); slots have constant capacity ≥ 1; (D3) requests are registered under the lock with key = Response.id, only on the success edge of Send, each with a context watcher whose cancel function is stored in the Response; (D4) the message written into a slot carries the id under which the Response was registered (the id-mismatch panic is unreachable), and request-shaped inbound members are routed away before the table is consulted; unknown ids return without a write. (D6) the loop that delivers the members of an inbound message has no early exit. (D7) the key used to match a reply is the whole (null-normalised) id text, never a substring or respelling. (D8) no list of messages, tasks or responses is sorted or reversed. (D9) the bytes a Recv returned are decoded inside the receiving call: they reach no goroutine, stored closure, field or channel (a framing may reuse its buffer on the next Recv). Also decided: the client's reader performs no channel operation, semaphore acquisition or wait between receives.",
 		NotDecided:  []string{"that the value delivered equals what the peer sent for every reply stream", "that response i of Batch belongs to call i is decided only structurally (request i from spec i, one slot per id-carrying request in one in-order pass, send's slice returned unchanged)"},
 		Assumptions: []string{"sync.Mutex semantics", "strconv.FormatInt is injective"},
 		RuleText:    ruleText,
@@ -46,6 +46,7 @@ func init() {
 			ruleTokenKeyed(c, "client")
 			ruleClientRouting(c)
 			ruleNoReorderingOfMessages(c)
+			ruleReaderDoesNotWait(c)
 			ruleReplyKeyWhole(c, c.M.CPending, "client")
 			ruleNullErrorIsAbsent(c)
 			ruleRecvBufferNotRetained(c, "PROV.recvbuf")
@@ -57,7 +58,7 @@ func init() {
 	register(&Def{
 		ID:          "C05",
 		Technique:   "single-writer slot typestate, stop-function path queries, running-state facts at client sends, goroutine accounting against the lifetime WaitGroup, lock-state facts at hook calls, constant tables of filterError vs ErrorCode",
-		Explanation: "Decides: (D1) at most one completion per request: slot writes follow lookup-and-remove in one critical section, slots are closed only by their single receiver after a successful receive; (D2) at least one after an ending event: every registration starts a context watcher with a guaranteed cancel, and every path from Close in the stop function cancels all pending entries and the callback context; Close is guarded, once, and coupled with the stop cause, which is non-nil at every call; (D3) both client Send sites require the running state established in the same critical section; (D4) filterError maps exactly the codes ErrorCode assigns to context.Canceled/DeadlineExceeded back to them; (D5) OnCancel runs with the lock definitely released, after the Response settled, from a closure created only after this goroutine wrote the slot; OnStop runs with the lock released, only from the closure the stop function returns after actually closing; (D6) reader, per-message delivery and callback goroutines are registered with the WaitGroup that Close waits on before every return. (D7) the waiter that settles a Response calls its cancel function on every path; the delivery loop has no early exit. (D8) the loop that waits for the responses of a batch has no early exit; the table of pending responses is assigned only at construction. (D9) option accessors hand the user's callbacks on: they neither call them nor wrap them in a conditional call.",
+		Explanation: "Decides: (D1) at most one completion per request: slot writes follow lookup-and-remove in one critical section, slots are closed only by their single receiver after a successful receive; (D2) at least one after an ending event: every registration starts a context watcher with a guaranteed cancel, and every path from Close in the stop function cancels all pending entries and the callback context; Close is guarded, once, and coupled with the stop cause, which is non-nil at every call; (D3) both client Send sites require the running state established in the same critical section; (D4) filterError maps exactly the codes ErrorCode assigns to context.Canceled/DeadlineExceeded back to them; (D5) OnCancel runs with the lock definitely released, after the Response settled, from a closure created only after this goroutine wrote the slot; OnStop runs with the lock released, only from the closure the stop function returns after actually closing; (D6) reader, per-message delivery and callback goroutines are registered with the WaitGroup that Close waits on before every return. (D7) the waiter that settles a Response calls its cancel function on every path; the delivery loop has no early exit. (D8) the loop that waits for the responses of a batch has no early exit; the table of pending responses is assigned only at construction. (D9) option accessors hand the user's callbacks on: they neither call them nor wrap them in a conditional call. Also decided: the client's reader performs no channel operation, semaphore acquisition or wait between receives. From every Lock of the client mutex no path reaches a return without an Unlock (direct, by a callee, or deferred).",
 		NotDecided:  []string{"which of reply / context end wins a race", "absence of blocking in user hooks; timing"},
 		Assumptions: []string{"context cancellation semantics", "sync.WaitGroup semantics"},
 		RuleText:    ruleText,
@@ -66,6 +67,8 @@ func init() {
 			ruleTokenWrite(c, "client")
 			ruleTokenClose(c)
 			ruleFirstWaiterReleases(c)
+			ruleReaderDoesNotWait(c)
+			ruleLockBalanced(c, "client")
 			ruleBatchWaitsAll(c)
 			ruleAccessorsDoNotCallBack(c, "TABLE.default", c.M.Pkg)
 			rulePendingTablesNeverReplaced(c, c.M.CPending)
@@ -98,7 +101,7 @@ func init() {
 	register(&Def{
 		ID:          "C09",
 		Technique:   "gate dominance for push entry points, running-state facts at the push send, atomic id counter, single-writer slot typestate for the callback table, predicate extraction in the reply filter, provenance of the queued batch",
-		Explanation: "Decides: (D1) the push function is called only on the allowPush edge, the other edge returning a package-level error; (D2) the push send requires the running state in its critical section and the not-running edge returns a package-level error; (D3) callback ids come from FormatInt(counter) with counter++ in one critical section; (D4) callback slots are written only after lookup-and-remove under the server lock (reader interception and context watcher), registered with key = id together with a context watcher, all cancelled by the stop function; (D5) the reply filter keeps a member for dispatch only if it is a request/notification or push is disabled, and never returns its input; (D6) the reader queues exactly the filter's result (interception precedes queueing, under the lock). (D7) the callback watcher is started on every path after registration; a removed callback entry is always completed; every look-up in the callback table sits on the ¬isRequestOrNotification edge. (D8) the request predicate is exactly method ≠ \"\" ∧ no error ∧ no result; the callback table is assigned only at construction; replies are matched by their whole id text.",
+		Explanation: "Decides: (D1) the push function is called only on the allowPush edge, the other edge returning a package-level error; (D2) the push send requires the running state in its critical section and the not-running edge returns a package-level error; (D3) callback ids come from FormatInt(counter) with counter++ in one critical section; (D4) callback slots are written only after lookup-and-remove under the server lock (reader interception and context watcher), registered with key = id together with a context watcher, all cancelled by the stop function; (D5) the reply filter keeps a member for dispatch only if it is a request/notification or push is disabled, and never returns its input; (D6) the reader queues exactly the filter's result (interception precedes queueing, under the lock). (D7) the callback watcher is started on every path after registration; a removed callback entry is always completed; every look-up in the callback table sits on the ¬isRequestOrNotification edge. (D8) the request predicate is exactly method ≠ \"\" ∧ no error ∧ no result; the callback table is assigned only at construction; replies are matched by their whole id text. Also decided: Callback's error filter returns the peer's error itself or a context sentinel, never nil for a non-nil error.",
 		NotDecided:  []string{"which of reply / context end / stop wins a race for a callback"},
 		Assumptions: []string{"sync.Mutex semantics"},
 		RuleText:    ruleText,
@@ -110,6 +113,7 @@ func init() {
 			ruleAtomicCounter(c, "server", c.M.SCallID)
 			c.Clause("C09-D4")
 			ruleWatcherReportsCtxErr(c, "server")
+			ruleFilterErrorTable(c)
 			ruleTokenWrite(c, "server")
 			ruleTokenKeyed(c, "server")
 			ruleTokenRegister(c, "server")
